@@ -33,6 +33,8 @@ class Machine:
         self.self = dict(state)
         self.trace = []
         self.depth = 0
+        self.all_fns = {}  # "Type::name" -> Fn (associated functions of other types of the file, for inlining)
+        self.self_ty = None
 
     # ---- helpers
     def target(self, e, env):
@@ -105,6 +107,12 @@ class Machine:
                 return env[nm]
             if nm == "self":
                 return ("self",)
+            if "::" in nm and nm.split("::")[-1][:1].isupper():
+                # a unit variant / associated constant: a symbolic value
+                segs = nm.split("::")
+                if segs[0] == "Self" and self.self_ty:
+                    segs[0] = self.self_ty
+                return ("enum", "::".join(segs[-2:]))
             raise Unsupported(f"name `{nm}`")
         if k == "Expr::Field":
             r = A.render(e)
@@ -115,6 +123,8 @@ class Machine:
                 f = {"state.on_newline": "on_newline"}.get(f, f)
                 if f in self.self:
                     return self.self[f]
+                if "__state_field__" in self.self and f == self.self["__state_field__"]:
+                    return self.self["__state__"]
             raise Unsupported(f"field `{r}`")
         if k == "Expr::Unary":
             op = A.kind(e["op"])
@@ -150,6 +160,8 @@ class Machine:
                     return UNIT
                 raise Unsupported(f"`{pl} += ..`")
             l, r = self.ev(e["left"], env), self.ev(e["right"], env)
+            if op in ("BinOp::Eq", "BinOp::Ne") and isinstance(l, tuple) and isinstance(r, tuple) and l[:1] == ("enum",) and r[:1] == ("enum",):
+                return (l == r) if op == "BinOp::Eq" else (l != r)
             if op in ("BinOp::Eq", "BinOp::Ne") and {l, r} == {("c",), ("char", "\n")} and "c_is_nl" in self.self:
                 return self.self["c_is_nl"] if op == "BinOp::Eq" else not self.self["c_is_nl"]
             if isinstance(l, int) and isinstance(r, int) and not isinstance(l, bool):
@@ -178,6 +190,9 @@ class Machine:
             v = self.ev(e["right"], env)
             if pl.startswith("self."):
                 f = {"state.on_newline": "on_newline"}.get(pl[5:], pl[5:])
+                if "__state_field__" in self.self and f == self.self["__state_field__"]:
+                    self.self["__state__"] = v
+                    return UNIT
                 self.self[f] = v
                 if f == "on_newline":
                     self.trace.append(("on_newline=", v))
@@ -217,6 +232,23 @@ class Machine:
                 return ("sink", "pad")
             if fn in ("Default::default",):
                 return ("default",)
+            if fn and fn in self.all_fns and self.depth < 4:
+                g = self.all_fns[fn]
+                params = [A.pat_idents(p["0"]["pat"]) for p in g.node["sig"]["inputs"] if A.kind(p) == "FnArg::Typed"]
+                env2 = {}
+                for ps_, a in zip(params, e["args"]):
+                    if len(ps_) == 1:
+                        env2[ps_[0]] = self.ev(a, env)
+                saved = self.self_ty
+                self.self_ty = fn.split("::")[0]
+                self.depth += 1
+                try:
+                    v = self.block(g.block, env2)
+                except _Return as r:
+                    v = r.v
+                self.depth -= 1
+                self.self_ty = saved
+                return v
             raise Unsupported(f"call `{A.render(e)[:60]}`")
         if k == "Expr::MethodCall":
             m = e["method"]["sym"]
@@ -258,6 +290,8 @@ class Machine:
             if m == "fmt" and env.get(rr) == ("value",):
                 self.trace.append(("value", self.target(e["args"][0], env), "inherit"))
                 return OK
+            if m == "ends_with" and env.get(rr) == ("piece",) and A.render(e["args"][0]) in ("'\\n'", '"\\n"', "'\n'"):
+                return self.self["piece_ends_nl"]
             if m == "ends_with" and env.get(rr) == ("piece",):
                 return self.self["piece_ends_nl"]
             if rr == "self" and m in self.fns and self.depth < 4:
@@ -331,6 +365,48 @@ def run_loop_body(fn, impl_fns, on_newline, piece_ends_nl):
     except _Return:
         pass
     return it, m.trace, m.self["on_newline"]
+
+
+def adapter_state_field(file_fns, ctor_qual_prefix):
+    """(field name, initial abstract value) of the single state field a pad adapter's constructor initialises besides its
+    sink: `Padded::new` -> ("on_newline", True) / ("position", ("enum", "LinePosition::Start"))"""
+    for q, fn in file_fns.items():
+        if q.startswith(ctor_qual_prefix) and fn.name in ("new", "wrap"):
+            for x, _ in A.walk(fn.block):
+                if A.kind(x) == "Expr::Struct":
+                    m = Machine({}, {}, {})
+                    out = []
+                    for fv in x["fields"]:
+                        nm = fv["member"]["0"]["sym"] if A.kind(fv["member"]) == "Member::Named" else None
+                        try:
+                            v = m.ev(fv["expr"], {})
+                        except Unsupported:
+                            continue
+                        if isinstance(v, bool) or (isinstance(v, tuple) and v[:1] == ("enum",)):
+                            out.append((nm, v))
+                    if len(out) == 1:
+                        return out[0]
+    return None
+
+
+def step_loop_body(fn, impl_fns, all_fns, state_field, state, piece_ends_nl):
+    """one iteration of the per-line loop from abstract adapter state `state`: (writes, next state)"""
+    it, names, blk = loop_body(fn)
+    st = {"piece_ends_nl": piece_ends_nl, "__sink__": "inner"}
+    if state_field == "on_newline":
+        st["on_newline"] = state
+    else:
+        st["__state_field__"] = state_field
+        st["__state__"] = state
+    m = Machine(impl_fns, st, {})
+    m.all_fns = all_fns
+    env = {n: ("piece",) for n in names}
+    try:
+        m.block(blk, env)
+    except _Return:
+        pass
+    nxt = m.self["on_newline"] if state_field == "on_newline" else m.self["__state__"]
+    return [t for t in m.trace if t[0] != "on_newline="], nxt
 
 
 def run_write_char(fn, impl_fns, on_newline, c_is_nl):
